@@ -643,20 +643,32 @@ def _lit(rows, sort="real"):
     return VTensor([Dim([z3.IntVal(r)])], elem1, sort)
 
 
-@case("C14", clause="natural_parameters", name="natural_to_mean_and_factor", expand=lambda ix: [(m,) for m in (1, 2)], replay=lambda *a: replay_natural(*a),
-      functions=[f"{NV}.NaturalVariationalDistribution.forward", f"{NV}._NaturalToMuVarSqrt.forward", f"{NV}._NaturalToMuVarSqrt._forward", f"{NV}._triangular_inverse"], timeout=600)
-def natural_to_mean_and_factor(c, m):
+TNV = "gpytorch.variational.tril_natural_variational_distribution"
+
+
+@case("C14", clause="natural_parameters", name="natural_to_mean_and_factor", expand=lambda ix: [(m,) for m in (1, 2)] + [(m, True) for m in (1, 2)], replay=lambda *a: replay_natural(*a),
+      functions=[f"{NV}.NaturalVariationalDistribution.forward", f"{NV}._NaturalToMuVarSqrt.forward", f"{NV}._NaturalToMuVarSqrt._forward", f"{NV}._triangular_inverse",
+                 f"{TNV}.TrilNaturalVariationalDistribution.forward", f"{TNV}._TrilNaturalToMuVarSqrt.forward", f"{TNV}._TrilNaturalToMuVarSqrt._forward"], timeout=600)
+def natural_to_mean_and_factor(c, m, tril=False):
     """q(u) of the natural parameterisation: with theta_1 = natural_vec, Theta_2 = natural_mat (symmetric, -2 Theta_2 positive definite), the returned
     MultivariateNormal has (-2 Theta_2) Sigma = I  and  (-2 Theta_2) mu = theta_1,  i.e. covariance (-2 Theta_2)^-1 and mean Sigma theta_1.
+    tril=True: TrilNaturalVariationalDistribution, whose matrix parameter T (natural_tril_mat; only its lower triangle is read) stands for
+    Theta_2 = -1/2 tril(T)^T tril(T): then (tril(T)^T tril(T)) Sigma = I and (tril(T)^T tril(T)) mu = theta_1.
     Callee contracts (dependency, assumed): psd_safe_cholesky(A) returns the lower-triangular factor with positive diagonal and F F^T = A;
-    torch.linalg.solve_triangular(A, B, upper=False) returns X with A X = B.  Event size m in {1, 2} (explicit entries; nonlinear real arithmetic)."""
+    torch.linalg.solve_triangular(A, B, upper=False) returns X with tril(A) X = B (the upper triangle of A is not read).  Event size m in {1, 2} (explicit entries; nonlinear real arithmetic)."""
     it, ctx = c.it, c.ctx
     th = [c.real(f"theta1_{a}").t for a in range(m)]
     Th = [[None] * m for _ in range(m)]
     for a in range(m):
         for b in range(a, m):
             Th[a][b] = Th[b][a] = c.real(f"Theta2_{a}{b}").t
-    nat_vec, nat_mat = _lit(th), _lit(Th)
+    if tril:
+        Tm = [[c.real(f"T_{a}{b}").t for b in range(m)] for a in range(m)]  # arbitrary square parameter; tril(T) is what the code may read
+        lowT = [[Tm[a][b] if b <= a else z3.RealVal(0) for b in range(m)] for a in range(m)]
+        for a in range(m):
+            c.assume(Tm[a][a] != 0)
+        Th = [[z3.RealVal("-1/2") * sum(lowT[q][a] * lowT[q][b] for q in range(m)) for b in range(m)] for a in range(m)]
+    nat_vec, nat_mat = _lit(th), _lit(Tm if tril else Th)
     count = {"chol": 0, "solve": 0}
 
     def ent(t, a, b):
@@ -687,7 +699,7 @@ def natural_to_mean_and_factor(c, m):
         X = [[z3.Real(f"tsolve{tag}_{r}{s_}") for s_ in range(m)] for r in range(m)]
         for r in range(m):
             for s_ in range(m):
-                ctx_.assume(sum(ent(A, r, q) * X[q][s_] for q in range(m)) == ent(Bm, r, s_), "callee contract solve_triangular: A X = B")
+                ctx_.assume(sum(ent(A, r, q) * X[q][s_] for q in range(r + 1)) == ent(Bm, r, s_), "callee contract solve_triangular: tril(A) X = B")
         return _lit(X)
 
     it.optable["linear_operator.utils.cholesky.psd_safe_cholesky"] = chol
@@ -703,8 +715,8 @@ def natural_to_mean_and_factor(c, m):
         return VBuiltin("Function.apply", lambda it2, ctx2, a, k: it2.call(ctx2, it2.class_getattr(ctx2, vcls, "forward"), [fctx] + list(a), k))
 
     it.attr_hooks.append(function_apply)
-    o = module_obj(c, f"{NV}.NaturalVariationalDistribution", "natural_vdist")
-    for nm, t in (("natural_vec", nat_vec), ("natural_mat", nat_mat)):
+    o = module_obj(c, f"{TNV}.TrilNaturalVariationalDistribution" if tril else f"{NV}.NaturalVariationalDistribution", "natural_vdist")
+    for nm, t in (("natural_vec", nat_vec), ("natural_tril_mat" if tril else "natural_mat", nat_mat)):
         t.meta["is_parameter"] = True
         o.fields["_parameters"].d[nm] = t
     res = it.call(ctx, c.getattr(o, "forward"), [], {})
@@ -713,7 +725,7 @@ def natural_to_mean_and_factor(c, m):
     if not ok:
         return
     mu, cov = res.fields["loc"], res.fields["_covar"]
-    c.prove("natural.two_factorisations_one_triangular_solve", z3.BoolVal(count == {"chol": 2, "solve": 1}))
+    c.prove("natural.two_factorisations_one_triangular_solve", z3.BoolVal(count == ({"chol": 0, "solve": 1} if tril else {"chol": 2, "solve": 1})))
     Sig = [[cov.at_dims([z3.IntVal(a), z3.IntVal(b)]) for b in range(m)] for a in range(m)]
     for a in range(m):
         for b in range(m):
@@ -732,13 +744,22 @@ def replay_natural(model, params, clause, info):
     from gpytorch.variational import NaturalVariationalDistribution
     torch.manual_seed(0)
     bad = []
+    tril = len(params) > 1 and bool(params[1])
+    from gpytorch.variational import TrilNaturalVariationalDistribution
     for m in sorted({int(params[0]), 5}):
         A = torch.randn(m, m, dtype=torch.float64)
         P = A @ A.T + m * torch.eye(m, dtype=torch.float64)
         th = torch.randn(m, dtype=torch.float64)
-        d = NaturalVariationalDistribution(m).double()
-        d.natural_vec.data.copy_(th)
-        d.natural_mat.data.copy_(-0.5 * P)
+        if tril:
+            T = torch.randn(m, m, dtype=torch.float64) + 2 * torch.eye(m, dtype=torch.float64)  # upper triangle deliberately non-zero: it must not be read
+            P = T.tril().T @ T.tril()
+            d = TrilNaturalVariationalDistribution(m).double()
+            d.natural_vec.data.copy_(th)
+            d.natural_tril_mat.data.copy_(T)
+        else:
+            d = NaturalVariationalDistribution(m).double()
+            d.natural_vec.data.copy_(th)
+            d.natural_mat.data.copy_(-0.5 * P)
         q = d()
         e1 = (q.covariance_matrix - torch.linalg.inv(P)).abs().max().item()
         e2 = (q.mean - torch.linalg.solve(P, th)).abs().max().item()
